@@ -60,3 +60,16 @@ Theorem C08_valid_document_operations : forall s doc, validate s doc = [] ->
   /\ (forall o v d, In o doc.(q_ops) -> In v o.(o_vars) -> stype s (type_name v.(vd_type)) = Some d -> kind_is_input d.(df_kind) = true).
 Proof. exact valid_document_operations. Qed.
 Print Assumptions C08_valid_document_operations.
+
+(* What a silent KnownTypeNames / FragmentsOnCompositeTypes / VariablesAreInputTypes guarantees about
+   definitions: after a validation without errors every variable of every operation has a type that
+   exists in the schema and is an input type (what VariableValues relies on, C14), and every
+   fragment definition is on an existing object, interface or union type. *)
+From GQL.proofs Require Import RuleSpecs3.
+Theorem C08_valid_document_types : forall s doc, validate s doc = [] ->
+  (forall o v, In o doc.(q_ops) -> In v o.(o_vars) ->
+     exists d, stype s (type_name v.(vd_type)) = Some d /\ kind_is_input d.(df_kind) = true)
+  /\ (forall f, In f doc.(q_frags) -> f.(f_typecond) <> [] ->
+     exists d, stype s f.(f_typecond) = Some d /\ is_composite d = true).
+Proof. exact valid_document_types. Qed.
+Print Assumptions C08_valid_document_types.
